@@ -41,6 +41,7 @@ def run(ctx: Ctx):
     from .common import generic_lints
 
     generic_lints(ctx)
+    additive_blocks(ctx)
 
 
 def _bind(*names):
@@ -476,3 +477,44 @@ def no_index_overwrite(ctx: Ctx):
     ctx.require_min("subtotal-class functions scanned for index-array stores", 30)
     if not any(o.rule.endswith("no-overwrite") and o.status == "violated" for o in ctx.obligations):
         ctx.held("signed-merge.no-overwrite", f"{MS}, {SI}: every subtotal class", "no store through an addend / subtotal index array", "", "positive control recognised (2 stores)")
+
+
+def additive_blocks(ctx: Ctx):
+    """A measure class that INHERITS insertion blocks computed by the summing subtotal algebra (subtotal = sum of the
+    addends of `_base_values`) is only right when its base values are additive over categories (counts, bases, sums).  A
+    subclass whose `_base_values` is a quotient / product / power of two arrays (an effective base (sum w)^2 / sum w^2,
+    a proportion) and which keeps the inherited blocks reports the SUM of the addends' ratios for a subtotal, not the
+    ratio of the merged category."""
+    mod = ctx.repo.module(MM)
+    n = 0
+    for ci in mod.classes.values():
+        if "_base_values" not in ci.members:
+            continue
+        # where do this class's insertion blocks come from?
+        inherited_additive = []
+        for member in ("_subtotal_columns", "_subtotal_rows", "_intersections"):
+            m = ctx.repo.lookup(ci, member)
+            if m is None or m.cls is ci:
+                continue
+            src = ast.unparse(m.node)
+            if "SumSubtotals." in src and "self._base_values" in src:
+                inherited_additive.append(f"{m.cls.name}.{member}")
+        if not inherited_additive:
+            continue
+        n += 1
+        bv = ctx.repo.lookup(ci, "_base_values")
+        body = SUMMARIZER.summarize(bv.node)
+        nonlinear = []
+        for x in ast.walk(body):
+            if isinstance(x, ast.BinOp) and isinstance(x.op, (ast.Div, ast.Mult, ast.Pow, ast.FloorDiv)):
+                const = lambda e: isinstance(e, ast.Constant) or (isinstance(e, ast.UnaryOp) and isinstance(e.operand, ast.Constant))
+                if isinstance(x.op, ast.Pow) or not (const(x.left) or const(x.right)):
+                    nonlinear.append(u(x)[:70])
+        where = f"{MM}::{ci.name}._base_values"
+        if nonlinear:
+            ctx.violated("additive-blocks", where, f"{nonlinear[:2]} with insertion blocks inherited from {inherited_additive}", "base values additive over categories, or its own insertion blocks",
+                         "a subtotal of this measure is the sum of its addends' ratios, not the measure of the merged category")
+        else:
+            ctx.held("additive-blocks", where, f"additive; blocks from {inherited_additive[:1]}", "")
+    ctx.count("measure classes with inherited additive blocks", n)
+    ctx.require_min("measure classes with inherited additive blocks", 1)
